@@ -245,6 +245,13 @@ def rule_composition(chk: Check, model, rid: str, cv: CompiledView):
             ok = new_ss == S("step_state") and new_out == S("output") and flow.equivalent(u.guard, T.TRUE)
             own = T.assume(T.assume(u.args[2], pred, False), none, True)
             ok = ok and own[0] == "index" and own[1][0] == "call" and T.call_name(own[1]).endswith(".step")
+            # ... and the supervisor's own step is given the step state the caller was handed (the one stored in the graph state), as it is:
+            # step(gs) and step(gs, *supervisor.step(ss)) must be the same computation
+            if ok:
+                a0 = own[1][2][0] if own[1][2] else T.NONE
+                held = a0[0] == "index" and ((a0[1][0] == "attr" and a0[1][2] == "step_state") or (a0[1][0] == "sym" and a0[1][1].endswith(".step_state"))) and mentions(a0[2], "supervisor")
+                chk.add(rid, "run_supervisor: the supervisor steps on the stored step state, unchanged", bool(held), f"supervisor.step is called with {T.show(a0)[:160]}, expected "
+                        "graph_state.step_state[supervisor.name] as it is (what run_until_supervisor returned to the caller)", chk.loc(fi))
             timing = u.args[1]
             ok = ok and timing[0] == "call" and T.call_name(timing) == "rex.jax_utils.tree_take" and dict(timing[3]).get("i") is not None
         chk.add(rid, "run_supervisor: override == own result", bool(ok), "the user's (step_state, output) must enter the same update_state call as the supervisor's own step result", chk.loc(fi))
